@@ -828,7 +828,7 @@ addmember(struct structbuilder *b, struct qualtype mt, char *name, int align, un
 				t->size = mt.type->size;
 		}
 	}
-	if (m && t->align < align)
+	if ((m || targ->unnamedbitalign) && t->align < align)
 		t->align = align;
 }
 
